@@ -257,6 +257,31 @@ func C03(rep *ev.Reporter, tier string) {
 		})
 	}
 	RunFamily(rep, gen, 4000, bud, judgeC03)
+	// overlapping runs on ONE engine value: salience layers whose lower rules carry a probe in their condition (the
+	// nested run starts while the candidate list of the outer cycle is half built) and in their actions
+	{
+		type rs = []*grl.Rule
+		outers := map[string]func() rs{
+			"layers": func() rs {
+				return rs{grl.R("hi", grl.Sal(10), "F.I < 3", "F.I = F.I + 1", "F.Act(1)"),
+					grl.R("mid", grl.Sal(5), "F.Chk(F.I) && F.I2 < 2", "F.I2 = F.I2 + 1"),
+					grl.R("lo", nil, "F.Chk(F.K + 10) && F.K < 2", "F.K = F.K + 1")}
+			},
+			"ties": func() rs {
+				return rs{grl.R("a", grl.Sal(3), "F.Chk(F.I) && F.I < 2", "F.I = F.I + 1"),
+					grl.R("b", grl.Sal(3), "F.I2 < 2", "F.I2 = F.I2 + 1", "F.Act(2)"),
+					grl.R("c", grl.Sal(-1), "F.Chk(F.K + 10) && F.K < 1", "F.K = F.K + 1")}
+			},
+		}
+		sets := map[string]func() rs{
+			"two-layers": func() rs {
+				return rs{grl.R("x", grl.Sal(2), "F.I < 2", "F.I = F.I + 1"), grl.R("y", nil, "F.I2 < 2", "F.I2 = F.I2 + 1")}
+			},
+			"never": func() rs { return rs{grl.R("n", nil, "F.I < 0", "F.I = 9")} },
+			"loop":  func() rs { return rs{grl.R("l", nil, "F.I >= 0", "F.I = F.I + 1")} },
+		}
+		nestedRuns(rep, "C03", judgeC03, outers, sets, []string{"two-layers", "never", "loop"}, 7)
+	}
 	rep.Coverage["rule"] = "every rule set of k=2 (all kind pairs x all salience pairs) and k=3 (all kind triples x salience triples) rules over 13 rule kinds (quick: 5 of them in triples) whose actions change which rules are satisfied next, two of them changing facts only through a slice element / map entry, one calling Complete() in the middle of its action list, one whose condition fails to evaluate (missing map key; integer modulo by zero, which panics inside the engine) until another kind's action repairs it; the fired rule is compared with the maximum over the conflict set the reference evaluator recomputes on the current facts AND with the maximum over the candidates the engine reported; per program every initial world x every rule-iteration order at every cycle (state-pruned). Non-trivial: a firing chosen among >=2 candidates with >=2 distinct saliences."
 	rep.Assumptions = append(rep.Assumptions, "saliences written in decimal/hex/octal/negative spellings; model salience comes from the generator, not from the engine's parse", "rule order controlled through the overlay hook verifhook.Order (all k! orders per cycle)")
 }
